@@ -57,7 +57,7 @@ def build(spec):
         ids = ['%s_%s' % (rnd.choice(['x', 'atom', 'Zr', 'q-']), ''.join(rnd.choice('abcXYZ019') for _ in range(4)) + str(i)) for i in range(n)]
     pairs = [(i, j) for i in range(n) for j in range(n) if i != j]
     rnd.shuffle(pairs)
-    bonds = [(i, j, rnd.choice([1, 2, 3])) for (i, j) in pairs[:spec['n_bonds']]] if n > 1 else []
+    bonds = [(i, j, rnd.choice([1, 2, 3, 0])) for (i, j) in pairs[:spec['n_bonds']]] if n > 1 else []       # order 0: a contact listed as a bond is still a bond entry
     text, atoms = make_doc(n, bonds, ids, rnd, spec.get('geometry'))
     return text, atoms, bonds
 
